@@ -103,7 +103,9 @@ StepCall(e) ==
                               ELSE k \o ":" \o (IF e.changed THEN LieClass(e.f) ELSE "honest")])
        \cup FailIf(e.f = NoLie /\ ~e.relayed,
                    [l |-> l, inv |-> "RelayComplete", scope |-> scope,
-                    class |-> k \o ":honest_rejected" \o (IF k = "ABCIQuery" /\ e.sent.value = Nil THEN ":absent" ELSE "")])
+                    class |-> k \o ":honest_rejected" \o (IF k = "ABCIQuery" /\ e.sent.value = Nil THEN ":absent"
+                                                        ELSE IF a.h = 0 /\ k \in ProviderKinds /\ MaxOf(Have(C, a)) = C.tip
+                                                        THEN ":latest_up_to_date" ELSE "")])
        \cup FailIf(IF e.relayed /\ k \notin ProviderKinds THEN e.got # e.sent ELSE FALSE,
                    [l |-> l, inv |-> "RelayFaithful", scope |-> scope, class |-> k])
        \cup FailIf(offchain, [l |-> l, inv |-> "TrustedOnChain", scope |-> scope, class |-> k])
